@@ -5,6 +5,7 @@ import (
 	"fmt"
 	"math/rand"
 	"time"
+	"verif/harness/cbsim"
 
 	"verif/harness/drv"
 )
@@ -25,7 +26,7 @@ func c12Spec(rng *rand.Rand, i int) (*SessSpec, string) {
 	}
 	kind := []string{"mixed", "mixed", "allfinal", "finite", "socket", "hold"}[i%6]
 	if i%24 >= 18 {
-		kind = []string{"open-window", "rebalanced", "finite-complete", "end-in-rebalance", "reopen-vs-rebalance", "open-window"}[i%24-18]
+		kind = []string{"open-window", "rebalanced", "finite-complete", "end-in-rebalance", "reopen-vs-rebalance", []string{"retry-reopen", "end-behind-reopen"}[(i/24)%2]}[i%24-18]
 	}
 	reqs := map[int]int{}
 	for vb := 0; vb < sp.NumVB; vb++ {
@@ -75,6 +76,21 @@ func c12Spec(rng *rand.Rand, i int) (*SessSpec, string) {
 			}
 		}
 		sp.Steps = append(sp.Steps, Step{Op: "barrier"}, Step{Op: "metrics"}, Step{Op: "waitstop", Ms: 150})
+	case "end-behind-reopen":
+		// the re-opened stream is ended transiently again right behind the node's answer, before the client's re-open call
+		// has returned: this end, too, is followed by a re-open
+		vb := rng.Intn(sp.NumVB)
+		sp.EndBehindReq = map[int][2]int{vb: {2, int(transientStatus[rng.Intn(4)])}}
+		sp.Steps = append(sp.Steps, Step{Op: "end", VB: vb, St: transientStatus[rng.Intn(4)]}, Step{Op: "waitreopen", VB: vb, N: 3, Ms: 4000}, Step{Op: "append", VB: vb, Items: genSnap(rng, o, &ctr)},
+			Step{Op: "barrier"}, Step{Op: "metrics"}, Step{Op: "waitstop", Ms: 150})
+	case "retry-reopen":
+		// the first re-open attempt after a transient end is refused; during the library's 1 s back-off the consumer settles
+		// further events (and saves); the second attempt must start from the position tracked THEN
+		sp.PNow, sp.PDefer = 0, 1
+		vb := rng.Intn(sp.NumVB)
+		sp.ReqFail = map[int][2]int{vb: {2, []int{0x24, 0x84}[rng.Intn(2)]}}
+		sp.Steps = append(sp.Steps, Step{Op: "end", VB: vb, St: transientStatus[rng.Intn(4)]}, Step{Op: "waitreopen", VB: vb, N: 2}, Step{Op: "sleep", Ms: 100}, Step{Op: "ack", Sel: "all"}, Step{Op: "commit"},
+			Step{Op: "waitreopen", VB: vb, N: 3}, Step{Op: "append", VB: vb, Items: genSnap(rng, o, &ctr)}, Step{Op: "barrier"}, Step{Op: "metrics"}, Step{Op: "waitstop", Ms: 150})
 	case "end-in-rebalance":
 		// the server ends a vBucket stream with a recoverable status while a rebalance is closing the streams (held inside
 		// BeforeStreamStop, or right after the close): after the rebalance every vBucket is streamed, once, and nothing stops
@@ -204,6 +220,21 @@ func OracleEnds(tr *Trace) ([]Finding, int) {
 	for vb := 0; vb < sp.NumVB; vb++ {
 		segs := tr.Segs[vb]
 		for i, sg := range segs {
+			if sg.ReplySt != 0 && sg.ReplySt != int(cbsim.StRollback) && i+1 < len(segs) && segs[i+1].ReqT < end && i > 0 {
+				// a refused re-open attempt: the next attempt starts from the position tracked when IT is made
+				nx := segs[i+1]
+				want := tuple{segs[0].ReqUUID, segs[0].Start, segs[0].SnapS, segs[0].SnapE}
+				for _, r := range tr.Log {
+					if r.K == "cons.track" && r.VB == vb && r.T < nx.ReqT {
+						want = tuple{r.D, r.Seq, r.B, r.C}
+					}
+				}
+				got := tuple{nx.ReqUUID, nx.Start, nx.SnapS, nx.SnapE}
+				n++
+				if got != want {
+					fs = append(fs, Finding{"C12", "reopen", "C12/reopen/position-on-retry", fmt.Sprintf("vb %d: the re-open attempt after a refused one started from (vbuuid %x, %d, [%d,%d]); the position tracked at that moment was (vbuuid %x, %d, [%d,%d])", vb, got.uuid, got.seq, got.ss, got.se, want.uuid, want.seq, want.ss, want.se)})
+				}
+			}
 			if sg.ReplySt != 0 || sg.ReqT > end {
 				continue
 			}
